@@ -196,6 +196,8 @@ def truth(v):
             return v != 0
         if v.sort() == REAL:
             return v != 0
+    if isinstance(v, (AList, SList)):
+        return to_z3(v.length, INT) > 0           # a list is true iff it is non-empty
     if isinstance(v, (Ref, Opaque, str)):
         raise OutOfSubset('truthiness of %r' % (v,))
     raise OutOfSubset('truthiness of %r' % (v,))
@@ -820,7 +822,18 @@ class Engine:
             return z3.simplify(lo + idx) if step == 1 else z3.simplify(lo - idx)
         if isinstance(base, AList):
             if isinstance(node.slice, ast.Slice):
-                raise OutOfSubset('slice of a list')
+                sl = node.slice
+                if sl.upper is not None or sl.step is not None or sl.lower is None:
+                    raise OutOfSubset('slice of a list other than lst[k:]')
+                k = self.ev(sl.lower, st)
+                if not (isinstance(k, int) and not isinstance(k, bool) and k >= 0):
+                    raise OutOfSubset('lst[k:] with a non-literal k')
+                ln = to_z3(base.length, INT)
+                # lst[k:] as a NAMED array with a defining axiom (positions stay plain indices in later terms; cf. a[::-1])
+                t_ = fresh('lsl', A1I)
+                q_ = z3.Int('q!ls')
+                st.pc.append(z3.ForAll([q_], z3.Select(t_, q_) == z3.Select(base.term, q_ + k), patterns=[z3.Select(t_, q_)]))
+                return AList(t_, z3.simplify(z3.If(ln >= k, ln - k, 0)))
             raw = self.ev(node.slice, st)
             if isinstance(raw, int) and not isinstance(raw, bool) and raw < 0:
                 raw = z3.simplify(to_z3(base.length, INT) + raw)
@@ -1236,7 +1249,8 @@ class Engine:
                 val = AList(t_, z3.IntVal(len(elems)))
             else:
                 val = SList(len(elems), [(z3.IntVal(k_), e) for k_, e in enumerate(elems)])
-        if isinstance(val, (SList, AList)) and isinstance(node.value, (ast.Name, ast.Subscript, ast.Attribute)):
+        if isinstance(val, (SList, AList)) and isinstance(node.value, (ast.Name, ast.Subscript, ast.Attribute)) \
+                and not (isinstance(node.value, ast.Subscript) and isinstance(node.value.slice, ast.Slice)):        # a slice is a new list
             raise OutOfSubset('a list object is bound to a second name: %s' % ast.unparse(node)[:60])
         if isinstance(val, Fork):
             out = []
@@ -2465,6 +2479,20 @@ def _sb_lemma_mpw(eng, st, node):
     return z3.And(mpw(G, z3.IntVal(1)) == G, z3.Implies(d >= 1, z3.And(mpw(G, d + 1) == mdot(mpw(G, d), G), mpw(G, d + 1) == mdot(G, mpw(G, d)))))
 
 
+def _sb_lemma_reach_closed(eng, st, node):
+    """LEMMA (Lean: reach_closed, induction on the walk length): a node set P that contains s and is closed under following connections
+    contains every node reachable from s.  lemma_reach_closed(G, s, P, n) with P a boolean array."""
+    G = _term2(eng, st, eng.ev(node.args[0], st))
+    s_ = to_z3(eng.ev(node.args[1], st), INT)
+    P = _term1b(eng, st, eng.ev(node.args[2], st))
+    n = to_z3(eng.ev(node.args[3], st), INT)
+    v, w = z3.Ints('v!rc w!rc')
+    inv_, inw = z3.And(v >= 0, v < n), z3.And(w >= 0, w < n)
+    hyp = z3.And(s_ >= 0, s_ < n, z3.Select(P, s_),
+                 z3.ForAll([v, w], z3.Implies(z3.And(inv_, inw, z3.Select(P, v), z3.Select(z3.Select(G, v), w) != 0), z3.Select(P, w))))
+    return z3.Implies(hyp, z3.ForAll([w], z3.Implies(z3.And(inw, sdist(G, s_, w) >= 1), z3.Select(P, w)), patterns=[sdist(G, s_, w)]))
+
+
 def _sb_lemma_agg_symm(eng, st, node):
     """LEMMA (Lean: agg_symm): the aggregate of a symmetric matrix is symmetric.  lemma_agg_symm(W, c, n)."""
     W = _term2(eng, st, eng.ev(node.args[0], st))
@@ -2710,7 +2738,7 @@ def _sb_sdist(eng, st, node):
 
 def _sb_lemma_walks(eng, st, node):
     """Code-independent facts about walks in the graph of nonzero entries of G (n nodes) and the shortest-walk length sdist
-    (Lean: walk_one, walk_succ, walk_succ_prefix, walk_sdist, walk_add; table in engine/lean/README.md): lemma_walks(G, n[, k]).
+    (Lean: walk_one, walk_succ, walk_succ_prefix, walk_sdist, walk_add, sdist_split_suffix; table in engine/lean/README.md): lemma_walks(G, n[, k]).
       base:    walk(x,y,1) <-> G[x][y] != 0
       step:    walk(x,y,m+1) <-> exists z: walk(x,z,m) and G[z][y] != 0      (witness function for ->)
       sdist:   sdist >= 0; walk(x,y,m), m >= 1 -> 1 <= sdist(x,y) <= m;  sdist(x,y) >= 1 -> walk(x,y,sdist(x,y))
@@ -2742,7 +2770,8 @@ def _sb_lemma_walks(eng, st, node):
         k = to_z3(eng.ev(node.args[2], st), INT)
         zz = splitz(G, x, y, k)
         out.append(z3.ForAll([x, y], z3.Implies(z3.And(inx, iny, k >= 1, sdist(G, x, y) > k),
-                                                z3.And(zz >= 0, zz < n, zz != x, walk(G, x, zz, k), sdist(G, x, zz) == k)), patterns=[sdist(G, x, y)]))
+                                                z3.And(zz >= 0, zz < n, zz != x, walk(G, x, zz, k), sdist(G, x, zz) == k,
+                                                       walk(G, zz, y, sdist(G, x, y) - k))), patterns=[sdist(G, x, y)]))      # (Lean: sdist_split_suffix)
     return z3.And(*out)
 
 
@@ -2799,7 +2828,7 @@ SPEC_BUILTINS = {
     'dot2': _sb_dot2, 'isperm': _sb_isperm, 'same_object': _sb_same_object, 'unchanged': _sb_unchanged,
     'snapshot': _sb_snapshot, 'argref': _sb_argref, 'lam1': _sb_lam1, 'KCf': _sb_KCf, 'KNf': _sb_KNf, 'result_is_empty': _sb_result_is_empty, 'hopsint': _sb_hopsint, 'lam2': _sb_lam2, 'unique_witness': _sb_unique_witness, 'member': _sb_member, 'dset': _sb_dset(dset), 'rset': _sb_dset(rset), 'wset': _sb_dset(wset), 'cntb': _sb_cntb,
     'modsum': _mk_mod(modsum, 3), 'modsumT': _mk_mod(modsumT, 3), 'degsum': _mk_mod(degsum, 2), 'degsumT': _mk_mod(degsumT, 2), 'agg': _mk_mod(agg, 3),
-    'Qmod': _sb_Qmod, 'walk': _sb_walk, 'isint': (lambda eng, st, node: z3.IsInt(to_z3(eng.ev(node.args[0], st), REAL))), 'sdist': _sb_sdist, 'lemma_walks': _sb_lemma_walks, 'Qrawg': _sb_Qrawg, 'umul': _sb_umul, 'lemma_umul_linear': _sb_lemma_umul_linear, 'QrawB': _mk_mod(QrawB, 1), 'tsum': _mk_specfn(tsum, 1), 'csum': _mk_specfn(csum, 2), 'lemma_modularity': _sb_lemma_modularity, 'lemma_knm_sums': _sb_lemma_knm_sums, 'lemma_relabel': _sb_lemma_relabel, 'lemma_relabel_g': _sb_lemma_relabel_g, 'lemma_agg_compose': _sb_lemma_agg_compose, 'pathsum': _sb_pathsum, 'lemma_pathsum': _sb_lemma_pathsum, 'mpw': _sb_mpw, 'mateq': _sb_mateq, 'lemma_mpw': _sb_lemma_mpw, 'lemma_pathsum_append': _sb_lemma_pathsum_append, 'lemma_ext_B': _sb_lemma_ext_B, 'lemma_Q_from_kernel': _sb_lemma_Q_from_kernel, 'lemma_QrawB_def': _sb_lemma_QrawB_def, 'lemma_trace_agg': _sb_lemma_trace_agg, 'lemma_relabel_B': _sb_lemma_relabel_B, 'lemma_agg_compose_B': _sb_lemma_agg_compose_B, 'lemma_Qrawg_def': _sb_lemma_Qrawg_def, 'lemma_agg_compose_g': _sb_lemma_agg_compose_g, 'lemma_qg_from_aggregate': _sb_lemma_qg_from_aggregate, 'lemma_flat_count': _sb_lemma_flat_count, 'unique_count': (lambda eng, st, node: st.ghost['unique_count_last']), 'rounds_to': _sb_rounds_to, 'where_index': _sb_where_index, 'argsort_inverse': _sb_argsort_inverse, 'exists': _sb_exists, 'lemma_tsum_add': _sb_lemma_tsum_add, 'lemma_tsum_int': _sb_lemma_tsum_int, 'lemma_full_offdiag': _sb_lemma_full_offdiag, 'flat_store_rows': (lambda eng, st, node: st.ghost['_flat_store'][0]), 'flat_store_cols': (lambda eng, st, node: st.ghost['_flat_store'][1]), 'flat_store_len': (lambda eng, st, node: st.ghost['_flat_store'][2]), 'lemma_tsum_plus_transpose': _sb_lemma_tsum_plus_transpose, 'lemma_image_count': _sb_lemma_image_count,
+    'Qmod': _sb_Qmod, 'walk': _sb_walk, 'isint': (lambda eng, st, node: z3.IsInt(to_z3(eng.ev(node.args[0], st), REAL))), 'sdist': _sb_sdist, 'lemma_walks': _sb_lemma_walks, 'Qrawg': _sb_Qrawg, 'umul': _sb_umul, 'lemma_umul_linear': _sb_lemma_umul_linear, 'QrawB': _mk_mod(QrawB, 1), 'tsum': _mk_specfn(tsum, 1), 'csum': _mk_specfn(csum, 2), 'lemma_modularity': _sb_lemma_modularity, 'lemma_knm_sums': _sb_lemma_knm_sums, 'lemma_relabel': _sb_lemma_relabel, 'lemma_relabel_g': _sb_lemma_relabel_g, 'lemma_agg_compose': _sb_lemma_agg_compose, 'pathsum': _sb_pathsum, 'lemma_pathsum': _sb_lemma_pathsum, 'appended_value': (lambda eng, st, node: st.ghost['_append_last'][1]), 'lemma_reach_closed': _sb_lemma_reach_closed, 'mpw': _sb_mpw, 'mateq': _sb_mateq, 'lemma_mpw': _sb_lemma_mpw, 'lemma_pathsum_append': _sb_lemma_pathsum_append, 'lemma_ext_B': _sb_lemma_ext_B, 'lemma_Q_from_kernel': _sb_lemma_Q_from_kernel, 'lemma_QrawB_def': _sb_lemma_QrawB_def, 'lemma_trace_agg': _sb_lemma_trace_agg, 'lemma_relabel_B': _sb_lemma_relabel_B, 'lemma_agg_compose_B': _sb_lemma_agg_compose_B, 'lemma_Qrawg_def': _sb_lemma_Qrawg_def, 'lemma_agg_compose_g': _sb_lemma_agg_compose_g, 'lemma_qg_from_aggregate': _sb_lemma_qg_from_aggregate, 'lemma_flat_count': _sb_lemma_flat_count, 'unique_count': (lambda eng, st, node: st.ghost['unique_count_last']), 'rounds_to': _sb_rounds_to, 'where_index': _sb_where_index, 'argsort_inverse': _sb_argsort_inverse, 'exists': _sb_exists, 'lemma_tsum_add': _sb_lemma_tsum_add, 'lemma_tsum_int': _sb_lemma_tsum_int, 'lemma_full_offdiag': _sb_lemma_full_offdiag, 'flat_store_rows': (lambda eng, st, node: st.ghost['_flat_store'][0]), 'flat_store_cols': (lambda eng, st, node: st.ghost['_flat_store'][1]), 'flat_store_len': (lambda eng, st, node: st.ghost['_flat_store'][2]), 'lemma_tsum_plus_transpose': _sb_lemma_tsum_plus_transpose, 'lemma_image_count': _sb_lemma_image_count,
     'frow': (lambda eng, st, node: frow(to_z3(eng.ev(node.args[0], st), INT), to_z3(eng.ev(node.args[1], st), INT))), 'fcol': (lambda eng, st, node: fcol(to_z3(eng.ev(node.args[0], st), INT), to_z3(eng.ev(node.args[1], st), INT))), 'lemma_agg_symm': _sb_lemma_agg_symm, 'lemma_agg_identity': _sb_lemma_agg_identity, 'lemma_q_from_aggregate': _sb_lemma_q_from_aggregate,
     'lemma_masked_degree': _sb_lemma_masked_degree, 'lemma_degree_monotone': _sb_lemma_degree_monotone, 'result': _sb_result, 'raised': _sb_raised, 'shape_is': _sb_shape_is,
 }
